@@ -37,6 +37,14 @@ REWRITE_GROUPS = {
     },
 }
 
+REWRITE_GROUPS["path_utils"] = {
+    "crates": ["utils"],
+    "rewrites": [("crates/utils/src/relative_path.rs", "use std::path::{Component, Path, PathBuf};",
+                  "use verif_models::pathmodel::{Component, Path, PathBuf};\n"
+                  "#[allow(unused_imports)] use verif_models::fvec::Vec;\n"
+                  "#[allow(unused_macros)] macro_rules! vec { () => { Vec::new() }; }", 1)],
+}
+
 SW = "crates/sourcemap-writer/src/"
 
 PROPS = {}
@@ -70,5 +78,33 @@ PROPS["C06"] = {
         H("utf16_len_3chars", "sourcemap-writer", SW + "source_writer/utf16_len.rs", "sourcemap_writer/utf16_h.rs", "verif_utf16",
           ["utf16_len"], "strings of 0..3 arbitrary Unicode scalar values (all 0x110000-0x800 of them per position)",
           timeout=600, mem_gb=8),
+    ],
+}
+
+RP = "crates/utils/src/relative_path.rs"
+_RPF = ["relative_path", "normalize_path", "resolve_relative_path"]
+PROPS["C20"] = {
+    "rewrite_groups": ["path_utils"],
+    "assumptions": [
+        "std::path is replaced by the component-list model kv/models/src/pathmodel.rs (validated natively against the real std::path on every component list up to length 5 over {a, bb, ., ..}, rooted and not, for components/push/pop): a path is what Path::components() yields; byte-level parsing of path strings is not modelled",
+        "preconditions from the statement: absolute inputs that never climb above the root; A and B name files (last component is a name), B is not one of the directories containing A",
+        "Kani/CBMC/cadical are sound; rustc MIR is the semantics of the source",
+    ],
+    "outside": "how a string splits into components (separators, //, trailing /, non-UTF-8, Windows prefixes); the consumers in cli/src/generate.rs (path_to_ts, import specifiers, `sources`) and print_source_map_json",
+    "harnesses": [
+        H("normalize_spec_n3", "nitrogql-utils", RP, "utils/relpath_h.rs", "verif_relpath", ["normalize_path"],
+          "/ + up to 3 symbolic components from {x, y, ., ..}", timeout=600, mem_gb=8),
+        H("inverse_law_2x2", "nitrogql-utils", RP, "utils/relpath_h.rs", "verif_relpath", _RPF,
+          "a, b: / + up to 2 symbolic components each from {x, y, ., ..}", timeout=900, mem_gb=12),
+        H("resolve_spec_3x3", "nitrogql-utils", RP, "utils/relpath_h.rs", "verif_relpath", ["resolve_relative_path", "normalize_path"],
+          "a: / + up to 3 components; relative path: up to 3 components from {x, y, ., ..}", timeout=900, mem_gb=12),
+        H("normalize_spec_n5", "nitrogql-utils", RP, "utils/relpath_h.rs", "verif_relpath", ["normalize_path"],
+          "/ + up to 5 symbolic components from {x, y, ., ..}", tiers=("thorough",), timeout=2400, mem_gb=12),
+        H("inverse_law_3x3", "nitrogql-utils", RP, "utils/relpath_h.rs", "verif_relpath", _RPF,
+          "a, b: / + up to 3 symbolic components each from {x, y, ., ..}", tiers=("thorough",), timeout=3000, mem_gb=20),
+        H("resolve_spec_4x4", "nitrogql-utils", RP, "utils/relpath_h.rs", "verif_relpath", ["resolve_relative_path", "normalize_path"],
+          "a: / + up to 4 components; relative path: up to 4 components", tiers=("thorough",), timeout=2400, mem_gb=12),
+        H("relpath_no_panic_unconstrained_2x2", "nitrogql-utils", RP, "utils/relpath_h.rs", "verif_relpath", _RPF,
+          "a, b: / + up to 2 symbolic components, NO no-climb precondition; panic freedom only", timeout=900, mem_gb=12, has_mutant=False),
     ],
 }
